@@ -97,7 +97,7 @@ def quoteBody : Str → Option Str
     | some a, some b => some (a ++ b)
     | _, _ => none
 
-/-- the argument text of `.Default(…)` after pending/C13-quote.diff: `strconv.Quote(value)` -/
+/-- the argument text of `.Default(…)` after 8c56087: `strconv.Quote(value)` -/
 def emitDefaultFixed (p : Str) : Option Str := (quoteBody p).map fun b => [cDQ] ++ b ++ [cDQ]
 
 /-- value of a one-character escape of a Go interpreted string literal (`\'` is not allowed in
